@@ -1792,6 +1792,20 @@ class Interp:
                 self.emit("mutate", e, frame, target=args[0], how="shuffle(arg)")
             self.emit("mutate", e, frame, target=recv, how="draw:" + name)
             return res
+        # BaseEstimator.set_params(**kw): stores every (non-nested) keyword as an attribute of the
+        # receiver and returns the receiver; a fresh copy (clone) gets an identity so that the stored
+        # references are seen by its later fit
+        if name == "set_params" and not via_super and (recv.cls or recv.origins):
+            tgt = recv
+            if not tgt.origins:
+                tgt = tgt.replace(origins=FS([(self.alloc_site(frame, e), ())]))
+            else:
+                self.emit("mutate", e, frame, target=recv, how=".set_params()", args=args)
+            for k, v in kwargs.items():
+                if "__" not in k:
+                    for (root, path) in tgt.origins:
+                        self.heap_write(root, path + (k,), v)
+            return tgt.replace(deps=tgt.deps | res.deps)
         # scipy.stats distributions: `.rvs(size, random_state=g)` draws from g, from the
         # distribution's own generator = numpy's global one when g is None / omitted
         if name == "rvs":
